@@ -5,7 +5,7 @@
 (*   reset   txs : {name -> {sp,size,exp}}, max : {sponsor -> n}            *)
 (*   setmax  s, m                                                          *)
 (*   build   txs (names, duplicates allowed), rate (-1 = overflowing rate),*)
-(*           oks (the Bond return value for each element of txs)           *)
+(*           oks (the Bond return values, in order), err (none|inner|bond) *)
 (*   accept  ts, incl (names of the txs in the executed block)             *)
 (* every line carries pend : {sponsor -> pending balance read from the     *)
 (* bonder's database after the call}.  The ledger says what it must be.    *)
@@ -35,8 +35,13 @@ TraceInit ==
 TReset  == Ev("reset") /\ info' = InfoOf(T) /\ max' = MaxOf(T)
            /\ open' = [t \in Txs |-> -1] /\ over' = FALSE
 TSetMax == Ev("setmax") /\ LSetMax(T.s, T.m) /\ PendOK
-(* WithinMax is also demanded as a step condition so that the rejected line is the offending build *)
-TBuild  == Ev("build") /\ Len(T.oks) = Len(T.txs) /\ LBuild(T.txs, T.oks, T.rate) /\ ~over' /\ PendOK
+(* err = "none": the build succeeded; "inner": the inner DSMR.BuildChunk failed; "bond": Bond returned an error  *)
+(* for txs[Len(oks)+1] and the build stopped there.  Whatever Bond accepted stays bonded in all three cases.     *)
+(* WithinMax is also demanded as a step condition so that the rejected line is the offending build.             *)
+TBuild  == /\ Ev("build")
+           /\ IF T.err = "bond" THEN Len(T.oks) < Len(T.txs) ELSE Len(T.oks) = Len(T.txs)
+           /\ LBuild(SubSeq(T.txs, 1, Len(T.oks)), T.oks, T.rate)
+           /\ ~over' /\ PendOK
 TAccept == Ev("accept") /\ LAccept(T.ts, Set(T.incl)) /\ PendOK
 
 TraceNext == TReset \/ TSetMax \/ TBuild \/ TAccept
